@@ -398,9 +398,9 @@ def run(ctx, prop):
         if any(n > 1 for n in starts.values()):
             twice = sorted(i for i, n in starts.items() if n > 1)
             if prop == "C03":
-                res.violations.append({"class": None, "what": "a stage was run more than once (stages %s)" % twice, "case": {kk: v for kk, v in c.items() if kk != "id"}, "observed": r})
+                res.violations.append({"class": None, "what": "a stage was run more than once", "detail": "stages %s" % twice, "case": {kk: v for kk, v in c.items() if kk != "id"}, "observed": r})
             else:
-                res.mismatches.append({"what": "a stage was run more than once (stages %s): not an execution of the scheduler LTS" % twice, "case": {kk: v for kk, v in c.items() if kk != "id"}, "observed": r})
+                res.mismatches.append({"what": "a stage was run more than once: not an execution of the scheduler LTS", "case": {kk: v for kk, v in c.items() if kk != "id"}, "observed": r})
             items.append(None)
             continue
         outs = vlib.clist([vlib.cbool(s["ok"]) for s in c["stages"]])
